@@ -658,12 +658,15 @@ class Unsigned(Atomic, CommonMath):
             raise TypeError("invalid constructor datatype")
 
     def encode(self, tag):
-        # rip apart the number
-        data = bytearray(struct.pack('>L', self.value))
-
-        # reduce the value to the smallest number of octets
-        while (len(data) > 1) and (data[0] == 0):
-            del data[0]
+        # rip apart the number into the smallest number of octets, values
+        # that need more than four octets are decoded as well
+        value = self.value
+        if value < 0:
+            raise ValueError("value out of range")
+        data = bytearray([value & 0xFF])
+        while value > 0xFF:
+            value >>= 8
+            data.insert(0, value & 0xFF)
 
         # encode the tag
         tag.set_app_data(Tag.unsignedAppTag, data)
